@@ -89,6 +89,7 @@ def run_progs(lines, profile="debug", timeout=1800):
     pending = list(lines)
     order_ids = [l.split("|", 1)[0] for l in lines]
     guard = 0
+    aborts = 0
     while pending and guard < 200:
         guard += 1
         p = subprocess.run([harness_bin(profile), "conc", MODELRUN], input="\n".join(pending) + "\n",
@@ -113,6 +114,9 @@ def run_progs(lines, profile="debug", timeout=1800):
         if p.returncode in (3, 4) and last is not None:
             k = [i for i, l in enumerate(pending) if l.split("|", 1)[0] == last][0]
             pending = pending[k + 1:]
+            aborts += 1
+            if aborts >= 4:
+                break          # enough aborted / hung runs; do not wait for more
         else:
             break
     return [recs[i] for i in order_ids if i in recs]
